@@ -22,7 +22,8 @@ Prescribed(o) == Reply(T, GenCfg, [m |-> o.m, host |-> GenHost, path |-> o.path]
 Conforms ==
   LET o == Obs[i]
       r == Prescribed(o)
-  IN /\ r.kind = o.kind
+      open == r.kind \in {"options", "nomethod"} /\ r.amb /\ o.kind = "noroute"   \* a corner the statement leaves open
+  IN /\ open \/ r.kind = o.kind
      /\ r.kind = "route" => (r.e = o.route /\ o.params = [k \in DOMAIN r.b |-> <<r.b[k][1], r.b[k][2]>>])
      /\ r.kind = "redirect" => /\ o.code = r.code
                                /\ o.resolved = AdjustedSegs(o.routed)
